@@ -135,6 +135,8 @@ type FnEnc struct {
 	paramVals  map[string]ssa.Value
 	defers     []*ssa.Defer
 	heapCache  map[string]string
+	unresolvedNote []string
+	unmodelled map[string]bool
 }
 
 type loopInfo struct {
@@ -959,6 +961,11 @@ func (f *FnEnc) evalClause(expr *SX, env map[string]string) string {
 
 func (f *FnEnc) evalClauseSt(expr *SX, env map[string]string, cur, old *State) string {
 	at := exprAtoms(expr)
+	if un := f.e.unresolved(expr, env); len(un) > 0 {
+		// the clause names a local that does not exist (any more): it cannot be established
+		f.unresolvedNote = append(f.unresolvedNote, fmt.Sprintf("clause refers to unknown name(s) %v", un))
+		return "false"
+	}
 	env2 := env
 	if at["H"] || at["H0"] {
 		env2 = make(map[string]string, len(env)+2)
@@ -972,7 +979,7 @@ func (f *FnEnc) evalClauseSt(expr *SX, env map[string]string, cur, old *State) s
 			env2["H0"] = f.heapTerm(old)
 		}
 	}
-	return expr.subst(env2).String()
+	return f.e.strLitSubst(expr.subst(env2).String())
 }
 
 // heapWF returns, for heap component n holding term c, the fact that no stored pointer, slice or
@@ -1025,6 +1032,11 @@ func (f *FnEnc) heapWF(n, c, w string) string {
 		if el == "Int" {
 			if fid, ok := f.e.reg.fidByComp[n]; ok && f.e.ptrField[fid] {
 				body = fmt.Sprintf("(<= %s %s)", v, w)
+			} else if ok {
+				if bt, isB := f.e.intField[fid]; isB {
+					lo, hi := intRange(bt)
+					body = fmt.Sprintf("(and (<= %s %s) (<= %s %s))", lo, v, v, hi)
+				}
 			}
 		} else {
 			body = ptrLike(el, v)
